@@ -138,7 +138,7 @@ Qed.
 
 (* exact characterisation of the property-conforming verification *)
 Lemma verify_iff_lemma : forall s online offline n_keys sub,
-  0 < cn P -> (forall i, 0 <= be_val (sig_scalar_bytes s i)) ->
+  0 < cn P -> 0 <= ws_n s -> (forall i, 0 <= be_val (sig_scalar_bytes s i)) ->
   (whitelist_verify P s online offline n_keys sub = true <->
    (1 <= ws_n s <= 255 /\ ws_n s = n_keys /\
     (forall i, (i < Z.to_nat (ws_n s))%nat -> 0 < be_val (sig_scalar_bytes s i) < cn P) /\
@@ -146,7 +146,7 @@ Lemma verify_iff_lemma : forall s online offline n_keys sub,
       (compute_keys P online offline (Z.to_nat (ws_n s)) sub) [Z.to_nat (ws_n s)] 1
       (compute_message online offline (Z.to_nat (ws_n s)) sub) = true)).
 Proof.
-  intros s on off nk sub Hn Hnonneg. unfold whitelist_verify, verify_gen, verify_prelude_rejects, WL_MAX_KEYS.
+  intros s on off nk sub Hn Hns Hnonneg. unfold whitelist_verify, verify_gen, verify_prelude_rejects, WL_MAX_KEYS.
   cbn [andb].
   destruct (Z.eqb_spec (ws_n s) 0) as [E0 | E0]; cbn [orb].
   { split; [discriminate | intros ((X & _) & _); lia]. }
@@ -166,8 +166,7 @@ Proof.
     rewrite (wl_load_scalars_some _ Hall) in E. inversion E; subst l.
     split.
     + intros Hv. split; [| split; [exact E2 | split; [| exact Hv]]].
-      * assert (0 <= ws_n s) by (destruct (Z.le_gt_cases 0 (ws_n s)); [assumption |];
-          exfalso; destruct (ws_n s); try lia; discriminate || lia). lia.
+      * lia.
       * intros i Hi. apply Hall. unfold wl_chunks, sig_scalar_bytes. apply in_map_iff. exists i.
         split; [reflexivity | apply in_seq; lia].
     + intros (_ & _ & _ & Hv). exact Hv.
@@ -233,3 +232,180 @@ Proof. exists f1_sig, f1_W. exact (proj1 as_coded_accepts_empty_ring_witness). Q
 (* ------------------------------------------------------------------ premises are satisfiable *)
 Example wl_parse_example : exists s, wl_parse (1 :: repeat 9 64) = Some s /\ ws_n s = 1.
 Proof. eexists. split; vm_compute; reflexivity. Qed.
+
+(* ================================================================== completeness: sign => verify *)
+Require Import Proofs.MathFacts Proofs.GroupLemmas Proofs.SurjectionProofs Proofs.BytesLemmas.
+
+Section Complete.
+Variable P : Params.
+Hypothesis MF : MathFacts P.
+Hypothesis Hn256 : cn P < 2 ^ 256.
+Notation G := (Curve.G P).
+Notation pmul := (Curve.pmul P).
+
+Definition sc_ok (s : Z) : Prop := 0 < s < cn P.
+
+Lemma wl_Forall_firstn : forall {A} (Q : A -> Prop) l k, Forall Q l -> Forall Q (firstn k l).
+Proof. induction l; intros [| k] H; cbn [firstn]; auto. inversion H; subst. constructor; auto. Qed.
+Lemma wl_Forall_skipn : forall {A} (Q : A -> Prop) l k, Forall Q l -> Forall Q (skipn k l).
+Proof. induction l; intros [| k] H; cbn [skipn]; auto. inversion H; subst. auto. Qed.
+
+Lemma sc_ok_nz : forall l, Forall sc_ok l -> forallb nz l = true.
+Proof.
+  induction 1; [reflexivity |]. cbn [forallb]. rewrite IHForall, andb_true_r.
+  unfold nz. apply negb_true_iff, Z.eqb_neq. unfold sc_ok in H. lia.
+Qed.
+
+Lemma gen_s_spec : forall idxs count msg key ss, gen_s P idxs count msg key = Some ss ->
+  length ss = length idxs /\ Forall sc_ok ss.
+Proof.
+  induction idxs as [| i rest IH]; cbn [gen_s]; intros count msg key ss H.
+  - inversion H; subst. split; [reflexivity | constructor].
+  - destruct (sc_of_b32 P (nonce_rfc6979 P (xor_msg msg (Z.of_nat i)) key None None count)) as [s ov] eqn:E.
+    destruct ov; cbn [orb] in H; [discriminate |].
+    destruct (s =? 0) eqn:Hz; [discriminate |].
+    destruct (gen_s P rest count msg key) as [l |] eqn:Eg; [| discriminate].
+    inversion H; subst ss. destruct (IH _ _ _ _ Eg) as [L F].
+    pose proof (sc_of_b32_range P MF _ _ _ E) as R. apply Z.eqb_neq in Hz.
+    split; [cbn [length]; f_equal; exact L | constructor; [unfold sc_ok; lia | exact F]].
+Qed.
+
+Lemma sign_nonces_spec : forall fuel count msg key nk non ss,
+  sign_nonces P fuel count msg key nk = Some (non, ss) ->
+  sc_ok non /\ length ss = nk /\ Forall sc_ok ss.
+Proof.
+  induction fuel as [| f IH]; cbn [sign_nonces]; intros count msg key nk non ss H; [discriminate |].
+  destruct (sc_of_b32 P (nonce_rfc6979 P msg key None None count)) as [v ov] eqn:E.
+  destruct ov; cbn [orb] in H; [exact (IH _ _ _ _ _ _ H) |].
+  destruct (v =? 0) eqn:Hz; [exact (IH _ _ _ _ _ _ H) |].
+  destruct (gen_s P (seq 0 nk) count msg key) as [l |] eqn:Eg; [| exact (IH _ _ _ _ _ _ H)].
+  inversion H; subst non ss. destruct (gen_s_spec _ _ _ _ _ Eg) as [L F].
+  pose proof (sc_of_b32_range P MF _ _ _ E) as R. apply Z.eqb_neq in Hz.
+  rewrite seq_length in L. repeat split; auto; lia.
+Qed.
+
+Lemma tweaked_privkey_range : forall ok sk sec, compute_tweaked_privkey P ok sk = Some sec -> 0 <= sec < cn P.
+Proof.
+  intros ok sk sec H. unfold compute_tweaked_privkey in H.
+  destruct (sc_of_b32 P sk) as [a ov]. destruct (ov || (a =? 0)); [discriminate |].
+  destruct (hash_pubkey P (pmul a G)); [| discriminate].
+  destruct (sc_of_b32 P ok) as [b ov2]. destruct (ov2 || (b =? 0)); [discriminate |].
+  inversion H; subst. unfold sc_add, madd. apply Z.mod_pos_bound. apply (n_pos P MF).
+Qed.
+
+Lemma wl_load_scalars_written : forall ss, Forall sc_ok ss -> wl_load_scalars P (map sc_to_b32 ss) = Some ss.
+Proof.
+  induction 1 as [| s l Hs F IH]; [reflexivity |]. cbn [map wl_load_scalars]. unfold sc_of_b32.
+  unfold sc_ok in Hs. rewrite be_val_sc_to_b32 by lia.
+  destruct (Z.leb_spec (cn P) s); [lia |]. rewrite Z.mod_small by lia.
+  destruct (Z.eqb_spec s 0); [lia |]. cbn [orb]. rewrite IH. reflexivity.
+Qed.
+
+Lemma compute_keys_length : forall online offline nk sub, length (compute_keys P online offline nk sub) = nk.
+Proof. intros. unfold compute_keys. rewrite map_length, seq_length. reflexivity. Qed.
+
+(* signing with a secret that matches the ring key at [index] yields a signature that verifies against
+   exactly that key list and whitelisted key *)
+Lemma sign_verifies_lemma : forall online offline nk sub online_key summed_key index sig sec,
+  (1 <= nk <= 255)%nat -> (index < nk)%nat ->
+  compute_tweaked_privkey P online_key summed_key = Some sec ->
+  nth index (compute_keys P online offline nk sub) None = pmul sec G ->
+  forallb ninf (compute_keys P online offline nk sub) = true ->
+  whitelist_sign_core P online offline nk sub online_key summed_key index = WSignOk sig ->
+  whitelist_verify P sig online offline (Z.of_nat nk) sub = true.
+Proof.
+  intros online offline nk sub ok sk index sig sec Hnk Hidx Hsec Hkey Hninf H.
+  unfold whitelist_sign_core in H. rewrite Hsec in H.
+  set (pubs := compute_keys P online offline nk sub) in *.
+  set (msg := compute_message online offline nk sub) in *.
+  destruct (sign_nonces P 64 0 msg (sc_to_b32 sec) nk) as [[non ss] |] eqn:En; [| discriminate].
+  destruct (borromean_sign P ss pubs [non] [sec] [nk] [index] 1 msg) as [[e0 s'] |] eqn:Eb; [| discriminate].
+  inversion H; subst sig. clear H.
+  destruct (sign_nonces_spec _ _ _ _ _ _ _ En) as (Hnon & Lss & Fss).
+  assert (Lp : length pubs = nk) by apply compute_keys_length.
+  pose proof (tweaked_privkey_range _ _ _ Hsec) as Rsec.
+  destruct (list_split_at ss index 0 ltac:(lia)) as [Ess Ls1].
+  destruct (list_split_at pubs index None ltac:(lia)) as [Epp Lp1].
+  rewrite Hkey in Epp.
+  set (s_pre := firstn index ss) in *. set (s_suf := skipn (S index) ss) in *.
+  set (p_pre := firstn index pubs) in *. set (p_suf := skipn (S index) pubs) in *.
+  assert (Fpre : Forall sc_ok s_pre) by (unfold s_pre; apply wl_Forall_firstn; exact Fss).
+  assert (Fsuf : Forall sc_ok s_suf) by (unfold s_suf; apply wl_Forall_skipn; exact Fss).
+  assert (Hsuflen : length s_suf = length p_suf) by (unfold s_suf, p_suf; rewrite !skipn_length; lia).
+  assert (Hinfx : is_inf (pmul sec G) = false).
+  { rewrite Epp in Hninf. rewrite forallb_app in Hninf. apply andb_true_iff in Hninf. destruct Hninf as [_ Hx].
+    cbn [forallb] in Hx. apply andb_true_iff in Hx. destruct Hx as [Hx _]. unfold ninf in Hx. apply negb_true_iff in Hx. exact Hx. }
+  remember (nth index ss 0) as sx eqn:Hsx.
+  assert (Eb' : borromean_sign P (s_pre ++ sx :: s_suf) (p_pre ++ pmul sec G :: p_suf) [non] [sec]
+                  [length (s_pre ++ sx :: s_suf)] [length s_pre] 1 msg = Some (e0, s')).
+  { rewrite <- Ess, <- Epp, Lss, Ls1. exact Eb. }
+  assert (Hprelen : length s_pre = length p_pre) by lia.
+  assert (Rnon : 0 <= non < cn P) by (unfold sc_ok in Hnon; lia).
+  assert (Hfp1 : forallb ninf p_pre = true) by (unfold p_pre; apply forallb_firstn; exact Hninf).
+  assert (Hfp2 : forallb ninf p_suf = true) by (unfold p_suf; apply forallb_skipn; exact Hninf).
+  destruct (ring1_sign_verifies P MF msg s_pre sx s_suf p_pre p_suf non sec e0 s'
+              Hprelen Hsuflen Rnon Rsec (sc_ok_nz _ Fpre) (sc_ok_nz _ Fsuf) Hfp1 Hfp2 Hinfx Eb')
+    as (Hv & snew & Es' & Rnew & Le0).
+  rewrite <- Ess, <- Epp, Lss in Hv.
+  assert (Fs' : Forall sc_ok s') by (rewrite Es'; apply Forall_app; split; [exact Fpre | constructor; [exact Rnew | exact Fsuf]]).
+  assert (Ls' : length s' = nk) by (rewrite Es', app_length; cbn [length]; unfold s_suf; rewrite skipn_length; lia).
+  unfold whitelist_verify, verify_gen, verify_prelude_rejects, WL_MAX_KEYS. cbn [ws_n ws_data andb].
+  destruct (Z.eqb_spec (Z.of_nat nk) 0); [lia |].
+  destruct (Z.ltb_spec 255 (Z.of_nat nk)); [lia |].
+  rewrite Z.eqb_refl. cbn [orb negb]. rewrite Nat2Z.id.
+  unfold wl_chunks. rewrite <- (app_nil_r (flat_map sc_to_b32 s')). rewrite <- Ls' at 1.
+  rewrite (chunks_of_written_sig e0 s' [] Le0).
+  rewrite (wl_load_scalars_written _ Fs').
+  rewrite (firstn_app_exact e0 _ 32 Le0). fold pubs msg. exact Hv.
+Qed.
+(* the same with the premise in the property's own terms: the online secret is the discrete log of the
+   online key at [index], the summed secret that of offline_index + W *)
+Lemma hash_pubkey_range : forall Q t, hash_pubkey P Q = Some t -> 0 <= t < cn P.
+Proof.
+  intros Q t H. unfold hash_pubkey in H. destruct Q; [| discriminate].
+  destruct (sc_of_b32 P (sha256 (ser33 (Some p)))) as [v ov] eqn:E.
+  destruct (ov || (v =? 0)); [discriminate |]. inversion H; subst. exact (sc_of_b32_range P MF _ _ _ E).
+Qed.
+
+Lemma nth_compute_keys : forall online offline nk sub index, (index < nk)%nat ->
+  nth index (compute_keys P online offline nk sub) None =
+  ring_key P (pk_pt sub) (pk_pt (key_obj online index)) (pk_pt (key_obj offline index)).
+Proof.
+  intros online offline nk sub index H. unfold compute_keys.
+  set (f := fun i => ring_key P (pk_pt sub) (pk_pt (key_obj online i)) (pk_pt (key_obj offline i))).
+  rewrite (nth_indep _ None (f O)) by (rewrite map_length, seq_length; exact H).
+  rewrite map_nth. rewrite seq_nth by exact H. reflexivity.
+Qed.
+
+Lemma sign_verifies_honest_lemma : forall online offline nk sub online_key summed_key index sig,
+  (1 <= nk <= 255)%nat -> (index < nk)%nat ->
+  0 < be_val online_key < cn P -> 0 < be_val summed_key < cn P ->
+  pk_pt (key_obj online index) = pmul (be_val online_key) G ->
+  Curve.padd P (pk_pt (key_obj offline index)) (pk_pt sub) = pmul (be_val summed_key) G ->
+  forallb ninf (compute_keys P online offline nk sub) = true ->
+  whitelist_sign_core P online offline nk sub online_key summed_key index = WSignOk sig ->
+  whitelist_verify P sig online offline (Z.of_nat nk) sub = true.
+Proof.
+  intros online offline nk sub okb skb index sig Hnk Hidx Hok Hsk Hon Hoff Hninf H.
+  set (ok := be_val okb) in *. set (sk := be_val skb) in *.
+  destruct (compute_tweaked_privkey P okb skb) as [sec |] eqn:Hsec.
+  2:{ unfold whitelist_sign_core in H. rewrite Hsec in H. discriminate. }
+  eapply sign_verifies_lemma; eauto.
+  rewrite nth_compute_keys by exact Hidx. unfold ring_key. rewrite Hoff, Hon.
+  unfold compute_tweaked_privkey, sc_of_b32 in Hsec. fold sk ok in Hsec.
+  destruct (Z.leb_spec (cn P) sk); [lia |]. destruct (Z.leb_spec (cn P) ok); [lia |].
+  rewrite !Z.mod_small in Hsec by lia.
+  destruct (Z.eqb_spec sk 0); [lia |]. destruct (Z.eqb_spec ok 0); [lia |]. cbn [orb] in Hsec.
+  unfold tweak_pubkey.
+  destruct (hash_pubkey P (pmul sk G)) as [t |] eqn:Ht; [| discriminate].
+  inversion Hsec; subst sec. clear Hsec.
+  pose proof (hash_pubkey_range _ _ Ht) as Rt.
+  pose proof (oc_G P MF) as HG.
+  unfold sc_add, sc_mul.
+  rewrite (pmul_madd P MF) by (try lia; unfold mmul; apply Z.mod_pos_bound; lia).
+  rewrite (pmul_mmul P MF) by lia.
+  f_equal.
+  rewrite <- (pmul_mul P MF) by (auto; lia). rewrite <- (pmul_mul P MF) by (auto; lia).
+  f_equal. lia.
+Qed.
+End Complete.
